@@ -56,7 +56,11 @@ func (l Level) MarshalText() ([]byte, error) {
 }
 
 func (l *Level) UnmarshalText(text []byte) error {
-	*l = ParseLevel(string(text))
+	// A level is documented as a string setting, so it may be given as a
+	// ${VAR} reference like any other string value. It is parsed while the
+	// file is decoded, before the references in plain strings are expanded,
+	// so the reference is resolved here.
+	*l = ParseLevel(expandEnvVarsInString(string(text), envGetterFunc))
 	if *l == UnknownLevel {
 		return errors.New("unknown logging level '" + string(text) + "'")
 	}
